@@ -68,7 +68,7 @@ impl Check for C01Check {
     }
     fn cases(&self, tier: Tier) -> u64 {
         match tier {
-            Tier::Quick => 3_000,
+            Tier::Quick => 5_000,
             Tier::Thorough => 60_000,
         }
     }
